@@ -25,6 +25,10 @@ type plan struct {
 	// variant whose side argument has the same message strings as the
 	// wrapped error (same mark) but different annotation strings
 	aliasSides bool
+	// dupDepth: for terms of depth <= dupDepth with at least two string
+	// slots, also the variant in which every slot holds the SAME string
+	// (the tokens make all strings distinct otherwise)
+	dupDepth int
 }
 
 func (p plan) String() string {
@@ -66,6 +70,11 @@ func eachTerm(c *core.Ctx, r *core.Result, p plan, f func(t *tm.Term)) {
 			}
 			if d <= p.pairDepth {
 				tm.StringPairs(t, tm.REG, f)
+			}
+			if d <= p.dupDepth {
+				if v := tm.DupVariant(t, "same"); v != nil {
+					f(v)
+				}
 			}
 		})
 		base += sp.Size()
